@@ -362,7 +362,10 @@ def rotate_pillow_image(pillow_image, orientation):
     image_format = pillow_image.format
     if orientation == 'from-image':
         if 'exif' in pillow_image.info:
-            pillow_image = ImageOps.exif_transpose(pillow_image)
+            # Transpose only when needed, exif_transpose returns a copy
+            # that loses the original image data otherwise
+            if pillow_image.getexif().get(0x0112) in range(2, 9):
+                pillow_image = ImageOps.exif_transpose(pillow_image)
     elif orientation != 'none':
         angle, flip = orientation
         if angle > 0:
